@@ -730,7 +730,7 @@ def run_machine(chk: Check, ctx, loop, carried, pname, rname, POS, REM, look, so
         return
     emits = []
     for a in in_loop:
-        emits.append((conds_sym(chk, ctx, a), R.expr(ctx, a.args[0], ctx.cfg.node_for(a))))
+        emits.append((conds_sym(chk, ctx, a, within=loop), R.expr(ctx, a.args[0], ctx.cfg.node_for(a))))
     # ---- evaluation over the kind x adjacency partition -------------------------------------------------------------
     GS, SO = 128, 1 << 20
     f2 = dict(fl)
